@@ -6,26 +6,26 @@ import os
 V = os.path.dirname(os.path.dirname(os.path.abspath(__file__)))
 
 META = {
-    "C01": ("other", "CFG path rule on both read loops (every chunk reaches every hasher until EOF, binary mode), format->algorithm table, hex/c4 codec constants and encoder/decoder agreement, single implementation routing, no memoisation on the digest path", "hashlib/xxhash compute the standard algorithms; base-58 arithmetic for all 512-bit values is not decided", "CFG path rule + table agreement + who-may-call", "4 C01"),
-    "C02": ("other", "loop coverage of the traversal and of its consumers (nothing but ignored names is dropped, every yielded file sealed, every folder recorded), record-key provenance, -sf scope, is_directory only ever a constant, no symlink-resolved path reaches a record key / history lookup / traversal root", "records vs. concrete trees are not executed; digests per C01/C04", "loop coverage + provenance", "4 C02"),
-    "C03": ("other", "error-signal discipline, exit-code table, exit precedence truth table, sibling agreement of the expected-set pipeline in create/verify/diff, timestamps inert, no truth test on a model object that defines __len__/__bool__, folders never counted as new files against a set that is not ancestor-closed, the logger never interprets an already formatted message as a printf format, verify and diff count every file without an original entry as new, the missing-file report is reached on every exit after the traversal, no single-use iterator consumed inside a loop, no fallback to records above the routed history (2 known findings), a file handle that reaches the chunk loop twice is rewound in between", "verdicts for concrete trees are not executed; hash collision resistance trusted", "decision table + sibling diff + taint", "4 C03"),
-    "C04": ("other", "action decision table, first-generation-wins lookup shape, generations kept ascending, gating of new formats, promotion-or-abort before write, one selector for the reference format, tables keyed by hash format cover every supported format, inner entry loops exhaustive", "generation sequences are not executed", "decision table + CFG dominance + cross-site agreement", "4 C04"),
+    "C01": ("other", "CFG path rule on both read loops (every chunk reaches every hasher until EOF, binary mode), format->algorithm table, hex/c4 codec constants and encoder/decoder agreement, single implementation routing, no memoisation on the digest path, the hasher that is fed is created in the call (never the receiver / a parameter)", "hashlib/xxhash compute the standard algorithms; base-58 arithmetic for all 512-bit values is not decided", "CFG path rule + table agreement + who-may-call", "4 C01"),
+    "C02": ("other", "loop coverage of the traversal and of its consumers (nothing but ignored names is dropped, every yielded file sealed, every folder recorded), record-key provenance, -sf scope, is_directory only ever a constant, no symlink-resolved path reaches a record key / history lookup / traversal root, -sf completeness (every named file reaches the seal call on every path of its iteration, generators included), the traversal never modifies the pathspec it was given", "records vs. concrete trees are not executed; digests per C01/C04", "loop coverage + provenance", "4 C02"),
+    "C03": ("other", "error-signal discipline, exit-code table, exit precedence truth table, sibling agreement of the expected-set pipeline in create/verify/diff, timestamps inert, no truth test on a model object that defines __len__/__bool__, folders never counted as new files against a set that is not ancestor-closed, the logger never interprets an already formatted message as a printf format, verify and diff count every file without an original entry as new, the missing-file report is reached on every exit after the traversal, no single-use iterator consumed inside a loop, no fallback to records above the routed history (2 known findings), a file handle that reaches the chunk loop twice is rewound in between, no un-keyed sort over tuples holding model objects, one spelling of a path at every ignore match", "verdicts for concrete trees are not executed; hash collision resistance trusted", "decision table + sibling diff + taint", "4 C03"),
+    "C04": ("other", "action decision table, first-generation-wins lookup shape, generations kept ascending, gating of new formats, promotion-or-abort before write, one selector for the reference format, tables keyed by hash format cover every supported format, inner entry loops exhaustive, only the constructor / session / validator / reader assign an entry's action", "generation sequences are not executed", "decision table + CFG dominance + cross-site agreement", "4 C04"),
     "C05": ("other", "verification loop shape and raise classes on all paths of the loader, verify-before-trust dominance, who-may-call the XML parsers, load-before-write in every command, no enclosing try", "collision resistance of c4; chain files produced by the tool", "CFG path conditions + typestate + who-may-call", "4 C05"),
-    "C06": ("other", "who-may-write, fresh name = latest+1, name format accepted by the loader (regex structure parsed, sample names with hostile folder names, the skip filter evaluated on generated names), chain rewrite = all old entries in order + one new, hashed after closed", "byte stability at run time not executed", "who-may-call + provenance + regex inclusion + typestate", "4 C06"),
+    "C06": ("other", "who-may-write, fresh name = latest+1, name format accepted by the loader (regex structure parsed, sample names with hostile folder names, the skip filter evaluated on generated names), the folder name goes into the manifest name character by character unchanged, chain rewrite = all old entries in order + one new, hashed after closed", "byte stability at run time not executed", "who-may-call + provenance + regex inclusion + typestate", "4 C06"),
     "C07": ("other", "argument wiring of the directory-hash context (content vs structure, name binding), sort-then-decode-then-hash, per-format key consistency, children before parents, sibling wiring in create / verify -dh, overrides of hash_of_hash_list hand the list itself (at most re-ordered) to the base implementation", "numeric equality with an independent evaluation is not decided", "provenance (argument wiring) + CFG order + sibling diff", "4 C07"),
     "C08": ("other", "component-wise exact-key routing, lookups of recorded entries on the routed history with the routed path, every referenced child generation written into the parent manifest, bottom-up commit, reference hashed after the child file is closed, write condition, child root hash copied up in all formats, one <hashlistreference> per referenced hash list on every path, the readers consume the whole document", "exactly-one-history per file on concrete layouts is not executed", "CFG order + typestate + provenance", "4 C08"),
     "C09": ("other", "result-use consistency and the 4-row decision table of the comparison helper against what each caller books as failure, writer-optional fields guarded before dereference, key-domain agreement of per-format lookups, failure bookkeeping reaches the exit decision, the list of formats that all have to fail for exit 12 holds recorded formats only, comparison / collection loops exhaustive, directory entries collected from the history itself only, __slots__ lists every attribute the package stores", "that a changed tree yields different directory hashes (C07 + collision resistance)", "result-use consistency + three-valued decision-table evaluation + nullability + key-domain", "4 C09"),
     "C10": ("other", "writer field table equals reader field table, all variable text goes through the escaping builder, path conversion paired both ways, the reader attaches every container it parsed to the hash list under parser-state tests only (attach table, push/pop pairing), hash dates keep their offset, reader conversions are followed through helpers (a fixed strptime layout is lossy), nothing edits the serialised XML line by line on its way to the file, the readers' event loops are never left early and iterate the parser's event stream itself", "lxml escaping/iterparse trusted; values not executed", "emission grammar vs reader decision table + taint", "4 C10"),
-    "C11": ("other", "language of element sequences the writers can emit is included in the XSD content models (every helper that writes to the document is modelled or the check fails closed; a truth test on a lazy iterator is not a non-emptiness guard); attribute sets; enumerations; multiplicity", "libxml2 is the reference validator; e-mail pattern and lexical dates for all clock values not decided", "emission grammar included in XSD automata", "4 C11"),
-    "C12": ("other", "every traversal and missing-file filter gets the spec built from (latest generation, -i, -ii); no ignore option is dropped; accumulation order/de-duplication; propagation at commit; the ignore filter is applied after the rename rewrite on the way to the missing-files report; patterns are matched relative to the sealed root, the -i option is declared multiple, the <ignore> element is emitted on every path of the manifest writer", "pathspec gitwildmatch semantics trusted", "provenance + dead-option + CFG order", "4 C12"),
-    "C13": ("other", "sortedness dataflow on every enumeration site, provenance/taint of every ignore-match argument and record key, no string decomposition of absolute paths in decisions, scan of set iterations, no import-time defaults, folder name in manifest file names from the normalised root", "byte identity at run time not executed", "sortedness dataflow + taint", "4 C13"),
+    "C11": ("other", "language of element sequences the writers can emit is included in the XSD content models (every helper that writes to the document is modelled or the check fails closed; a truth test on a lazy iterator is not a non-emptiness guard); attribute sets; enumerations; multiplicity; literals the writer itself supplies checked against XSD patterns", "libxml2 is the reference validator; e-mail pattern and lexical dates for all clock values not decided", "emission grammar included in XSD automata", "4 C11"),
+    "C12": ("other", "every traversal and missing-file filter gets the spec built from (latest generation, -i, -ii); no ignore option is dropped; accumulation order/de-duplication; propagation at commit; the ignore filter is applied after the rename rewrite on the way to the missing-files report; patterns are matched relative to the sealed root, the -i option is declared multiple, the <ignore> element is emitted on every path of the manifest writer, the pathspec is read-only inside the traversal, every ignore match is handed the undecorated relative path", "pathspec gitwildmatch semantics trusted", "provenance + dead-option + CFG order", "4 C12"),
+    "C13": ("other", "sortedness dataflow on every enumeration site, provenance/taint of every ignore-match argument and record key, no string decomposition of absolute paths in decisions, scan of set iterations, no import-time defaults, folder name in manifest file names from the normalised root, no temporary outside the destination's directory", "byte identity at run time not executed", "sortedness dataflow + taint", "4 C13"),
     "C14": ("proof", "absence of reachable file-system-mutating call sites per read-only command and path provenance of every mutating site of create/flatten: a sound over-approximation given the trusted base, every directory made by create is followed by the publication of a file, no makedirs in flatten's reach", "effects table of external callables; ast call resolution with CHA and unknown-receiver over-approximation; CPython import semantics", "call-graph reachability over an effects table + path provenance", "4 C14"),
-    "C15": ("other", "no durable history file is opened truncating under its final name (write temp, close, atomic replace outside any cleanup block, temp name ignored by the loader and re-creatable); validation before first write; manifest before chain; the loader parses only *.mhl entries and never raises on a stray / not-yet-chained manifest; no raise in the loader is conditioned on the existence of a file the commit creates only transiently (lock, temporary) or on `folder made by the commit exists, file published into it later is missing` (1 known finding: first create of a history); a durable file is never moved away or removed; no publish step in close / __del__ / unguarded __exit__ (run by the finaliser after a failed write)", "the full crash-point quantifier (OS write reordering, fsync, directory durability) is not decided", "typestate + provenance", "4 C15"),
-    "C16": ("other", "UTC offset is derived from the date it is attached to; no tzinfo is dropped or swapped without conversion; date formatters are not memoised; numeric attributes guarded by `is not None`; size/mtime from the hashed path; UTC file name; the reader's size conversion evaluated for \"0\" and \"7\"; the time stamp in the manifest file name traced to its strftime; zone parameters of the ISO formatter stay at their default at every call feeding a manifest", "tz database rules; sizes changing during hashing", "provenance/dependency + emission-guard typing", "4 C16"),
+    "C15": ("other", "no durable history file is opened truncating under its final name (write temp, close, atomic replace outside any cleanup block, temp name ignored by the loader and re-creatable); validation before first write; manifest before chain; the loader parses only *.mhl entries and never raises on a stray / not-yet-chained manifest; no raise in the loader is conditioned on the existence of a file the commit creates only transiently (lock, temporary) or on `folder made by the commit exists, file published into it later is missing` (1 known finding: first create of a history); a durable file is never moved away or removed; no publish step in close / __del__ / unguarded __exit__ (run by the finaliser after a failed write); temporaries live next to their destination; no roll-back that removes a published manifest / chain", "the full crash-point quantifier (OS write reordering, fsync, directory durability) is not decided", "typestate + provenance", "4 C15"),
+    "C16": ("other", "UTC offset is derived from the date it is attached to; no tzinfo is dropped or swapped without conversion; date formatters are not memoised; numeric attributes guarded by `is not None`; size/mtime from the hashed path; UTC file name; the reader's size conversion evaluated for \"0\" and \"7\"; the time stamp in the manifest file name traced to its strftime; zone parameters of the ISO formatter stay at their default at every call feeding a manifest; size and modification date pass through the session unchanged", "tz database rules; sizes changing during hashing", "provenance/dependency + emission-guard typing", "4 C16"),
     "C17": ("other", "previous path persisted/parsed/indexed under both names; one rename rewrite in three commands; verify follows the previous path; previous_path only under digest equality and -dr, and always recorded when the match takes the old path out of the missing set; the rename map is composed across generations (chains A->B->C); the matching loop is not left on a mismatch; every pair of the matching loop reaches a digest comparison unless sizes differ or a directory would have to be read as a file (path enumeration, helpers analysed through their returning paths); hash_file never reached for a directory; the previous-path search runs over the generations of the routed history; first-hit lookups by name must notice that a name changed hands (2 known findings)", "pairing for concrete sets of simultaneous renames not executed", "sibling diff + guard extraction", "4 C17"),
-    "C18": ("other", "flatten visits every generation in order; the carry-over decision table (directory / failed / path known / format known) evaluated three-valued over the loop body equals the specification; argument wiring incl. action; commits only into the destination; verify -pl dispatch and option wiring to the packing-list loader; verify never counts a traversed folder as a new file against a set that is not ancestor-closed (a packing list has no directory records); nothing reachable mutates the source history; between load and commit flatten asks the file system nothing about recorded paths", "equality with an independently computed summary not executed", "loop coverage + guard extraction + provenance", "4 C18"),
-    "C19": ("other", "listing loops exhaustive and unsliced and not fed from a single-use iterator bound outside the loop, each printed field from the matching attribute of the matching loop variable, recursion over all children, no history => exit 30", "exact output text not decided", "loop coverage + f-string wiring", "4 C19"),
-    "C20": ("other", "daemon before start on every path, constant bound on every join, network only inside run(), the checker thread writes nothing to stdout/stderr, checker state read only in result callbacks after the join, callback cannot raise/exit, no __exit__ / try-except around command invocation can swallow the command's exit, the main-thread side of the checker takes no lock the thread holds across a network call and waits on nothing unbounded, no executor / further thread / process / exit hook anywhere in the package, no catastrophic-backtracking pattern on the checker thread, both CLI groups agree", "interleavings are not explored; daemon-thread shutdown semantics of CPython trusted", "typestate + who-may-call + constant bound + sibling diff", "4 C20"),
+    "C18": ("other", "flatten visits every generation in order, the collection history carries no generations of earlier packing lists; the carry-over decision table (directory / failed / path known / format known) evaluated three-valued over the loop body equals the specification; argument wiring incl. action; commits only into the destination; verify -pl dispatch and option wiring to the packing-list loader; verify never counts a traversed folder as a new file against a set that is not ancestor-closed (a packing list has no directory records); nothing reachable mutates the source history; between load and commit flatten asks the file system nothing about recorded paths", "equality with an independently computed summary not executed", "loop coverage + guard extraction + provenance", "4 C18"),
+    "C19": ("other", "listing loops exhaustive and unsliced and not fed from a single-use iterator bound outside the loop, exactly one digest line per entry with verbose off (every other output and the recursion into the previous name only under verbose), each printed field from the matching attribute of the matching loop variable, recursion over all children, no history => exit 30", "exact output text not decided", "loop coverage + f-string wiring", "4 C19"),
+    "C20": ("other", "daemon before start on every path, constant bound on every join, network only inside run(), the checker thread writes nothing to stdout/stderr, checker state read only in result callbacks after the join, callback cannot raise/exit, no __exit__ / try-except around command invocation can swallow the command's exit, the main-thread side of the checker takes no lock the thread holds across a network call and waits on nothing unbounded, no executor / further thread / process / exit hook anywhere in the package, no catastrophic-backtracking pattern on the checker thread, thread-filled fields that start as None are used on the main side only under a test of that field, both CLI groups agree", "interleavings are not explored; daemon-thread shutdown semantics of CPython trusted", "typestate + who-may-call + constant bound + sibling diff", "4 C20"),
 }
 
 
